@@ -7,7 +7,9 @@ FINISH = dict(level="model_checking",
                    "flag sets (ResetLikeNew), trichotomy of outcomes, level-stack bound, fuel (termination of every "
                    "Feed); G: every prefix of the escape space x 17 probe texts on the real parser; V: arbitrary bytes "
                    "(random, NUL, invalid UTF-8, mutated documents), 5 flag sets, depth limits 1..5 and 32, random "
-                   "chunkings, sequences dirty/reset/parse mirrored on new parsers; TLC validates trichotomy, end <= "
+                   "chunkings, sequences dirty/(documents given without reset)/reset/parse mirrored on new parsers, data that "
+                   "ends in a comment behind a complete inner value; streams of NUL-terminated documents on one parser lose "
+                   "no value (TLC, all texts <= 8 over 6 bytes); TLC validates trichotomy, end <= "
                    "length, reused = new, nothing allocated after free")
 MC = ["C04_reset.cfg", "C04_reset_num.cfg", "C04_reset_struct.cfg"]
 ESC = [34, 92, 117, 100, 56, 99]
@@ -29,6 +31,9 @@ def run(ck):
     for cfg in MC:
         ck.mc("MCTokReset", cfg, workers=8, xmx="12g", timeout=1800)
     ck.mc_must_fail("MCTokReset", "C04_asfound_resetbleed.cfg", workers=8, timeout=900)
+    # streams of NUL-terminated documents on one parser without reset: no call returns holding a value only in its locals (D04b)
+    ck.mc("MCTokStream", "C04_stream_nul.cfg", workers=12, xmx="12g", timeout=1800)
+    ck.mc_must_fail("MCTokStream", "C04_asfound_inner_eof_success.cfg", workers=12, xmx="12g", timeout=900)
     exe = vlib.build("san", vlib.harness_sources(), "vh")
     for name, fl, depth, n, alpha in (("esc", 0, 2, 6 if not thorough else 7, ESC), ("esc", 1, 2, 6, ESC), ("struct", 0, 3, 4, STRUCT)):
         tp = os.path.join(ck.dir, "g-%s-%d.ndjson" % (name, fl))
